@@ -2700,6 +2700,11 @@ class Interferometer(Decomposition):
             decomp_fn = getattr(dec, mesh)
             BS1, R, BS2 = decomp_fn(self.p[0], tol=tol)
 
+            if mesh == "triangular":
+                # dec.triangular returns U = Ti(BS1[-1]) ... Ti(BS1[0]) diag(R): the local
+                # phase shifts act first and are followed by the inverse beamsplitters
+                BS1, BS2 = [], list(reversed(BS1))
+
             for n, m, theta, phi, _ in BS1:
                 theta = theta if np.abs(theta) >= _decomposition_tol else 0
                 phi = phi if np.abs(phi) >= _decomposition_tol else 0
